@@ -101,6 +101,27 @@ func (s *grpcServer) Read(req *bytestream.ReadRequest,
 		return status.Error(codes.OutOfRange, msg)
 	}
 
+	if req.ReadOffset == size {
+		// Reading from the very end of an existing blob is valid, and
+		// returns no data.
+		found, _ := s.cache.Contains(resp.Context(), cache.CAS, hash, size)
+		if !found {
+			msg := fmt.Sprintf("GRPC BYTESTREAM READ BLOB NOT FOUND: %s", hash)
+			s.accessLogger.Printf(msg)
+			return status.Error(codes.NotFound, msg)
+		}
+		if cmp == casblob.Zstandard {
+			err := resp.Send(&bytestream.ReadResponse{Data: emptyZstdBlob})
+			if err != nil {
+				msg := fmt.Sprintf("GRPC BYTESTREAM READ FAILED TO SEND RESPONSE: %s %v", hash, err)
+				s.accessLogger.Printf(msg)
+				return status.Error(codes.Unknown, msg)
+			}
+		}
+		s.accessLogger.Printf("GRPC BYTESTREAM READ COMPLETED %s", req.ResourceName)
+		return nil
+	}
+
 	var rc io.ReadCloser
 	var foundSize int64
 
